@@ -124,8 +124,8 @@ class Verdicts:
         for fid, n in sorted(self.known.items()):
             e = next(x for x in self.findings.entries if x["id"] == fid)
             print(f"KNOWN-FINDING: property={self.prop} {e['what']} [{fid}; {n} case(s)]")
-        for d in self.divergences[:10]:
-            print(f"DIVERGENCE property={self.prop} {json.dumps(jsonable(d), sort_keys=True)[:400]}")
+        for d in self.divergences[:3]:
+            print(f"DIVERGENCE property={self.prop} what={d.get('what')} {json.dumps(jsonable(d), sort_keys=True)[:160]}")
         paths = []
         seen = set()
         for v in self.violations:
